@@ -396,7 +396,16 @@ def chain_cases(draw):
         S = np.ascontiguousarray(np.stack(cols, axis=1).astype(np.int64))
         return {"S": S, "theta": draw(thetas(n))}
     S = draw(G.chains(1, 7))
-    return {"S": S, "theta": draw(thetas(S.shape[1]))}
+    th = draw(thetas(S.shape[1]))
+    for i in range(S.shape[1]):
+        # a sliding joint's coordinate is a length, not an angle: any size (half of the slides draw from +-10);
+        # a few turning joints are wound past a full revolution as well
+        if not np.any(S[:3, i]):
+            if draw(st.booleans()):
+                th[i] = draw(G.floats(-10.0, 10.0))
+        elif draw(st.integers(0, 7)) == 0:
+            th[i] = draw(G.floats(-4 * PI, 4 * PI))
+    return {"S": S, "theta": th}
 
 
 @st.composite
@@ -488,7 +497,8 @@ def c_mirror(case, ctx):
 
     scale = max(1.0, float(np.linalg.norm(p)), float(np.linalg.norm(o)), float(np.linalg.norm(q)))
     t = tol(scale, th) if form == "taa" else TIGHT * scale
-    m1 = sut(fsr.mirror, plane_tm(), mk(point))
+    pl = plane_tm()             # one plane object for both reflections
+    m1 = sut(fsr.mirror, pl, mk(point))
     pm = taa_of(m1, "mirror")[:3]
     qm = R.T @ (pm - o)
     close(qm[:2], q[:2], t, "mirror: in-plane (local x, y) coordinates of the image vs those of the point")
@@ -496,7 +506,7 @@ def c_mirror(case, ctx):
     close(pm, o + R @ np.array([q[0], q[1], -q[2]]), t, "mirror: image position vs reflection across the local XY plane")
     close(TM_of(m1, "mirror")[:3, 3], pm, 1e-12 * scale, "mirror: TM position vs TAA position of the image")
     # involution
-    m2 = sut(fsr.mirror, plane_tm(), mk(np.concatenate([pm, np.zeros(3)])))
+    m2 = sut(fsr.mirror, pl, mk(np.concatenate([pm, np.zeros(3)])))
     close(taa_of(m2, "mirror(mirror)")[:3], p, 2 * t, "mirror: mirror(mirror(p)) vs p")
 
 
@@ -515,8 +525,9 @@ def c_midpoint(case, ctx):
     ctx.nontrivial(pair_nontrivial(a, b, need_pos=False) and threl >= 0.1)
     t = tol(1.0, ang(a[3:]), ang(b[3:]), threl, threl / 2, thmid)
     pmean = (a[:3] + b[:3]) / 2
-    for (x, y, name) in ((a, b, "tmInterpMidpoint(a,b)"), (b, a, "tmInterpMidpoint(b,a)")):
-        r = sut(fsr.tmInterpMidpoint, mk(x), mk(y))
+    oa, ob = mk(a), mk(b)       # the same two objects for both orders: the helper reads its arguments only
+    for (x, y, name) in ((oa, ob, "tmInterpMidpoint(a,b)"), (ob, oa, "tmInterpMidpoint(b,a)")):
+        r = sut(fsr.tmInterpMidpoint, x, y)
         taa = taa_of(r, name)
         T = TM_of(r, name)
         close(taa[:3], pmean, TIGHT * max(1.0, float(np.abs(pmean).max())), name + ": position vs mean position")
@@ -697,19 +708,23 @@ def _gap(case, ctx):
 def c_linear_gap(case, ctx):
     a, b, delta, diff, g = _gap(case, ctx)
     fsr = L()["fsr"]
-    r = sut(fsr.closeLinearGap, mk(a), mk(b), delta)
-    taa = taa_of(r, "closeLinearGap")
+    origin, goal = mk(a), mk(b)
     scale = max(1.0, float(np.abs(a).max()), float(np.abs(b).max()))
-    if g == 0:
-        close(taa, b, TIGHT * scale, "closeLinearGap with no gap: result vs goal")
-        return
-    ctx.nontrivial(pair_nontrivial(a, b))
-    want = a + delta * diff / g
-    close(taa, want, TIGHT * scale, "closeLinearGap: six-vector vs origin + delta*unit(goal - origin)")
-    adv = float(np.linalg.norm(taa - a))
-    if abs(adv - delta) > TIGHT * scale:
-        raise Violation("closeLinearGap advanced %.12g, requested %.12g" % (adv, delta))
-    check_pose_coherent(r, "closeLinearGap result")
+    ctx.nontrivial(g != 0 and pair_nontrivial(a, b))
+    # the same origin and goal objects are stepped from twice (a planner steps from one node toward several goals):
+    # both answers are the step from the origin's pose
+    for name in ("closeLinearGap", "closeLinearGap (second step from the same origin object)"):
+        r = sut(fsr.closeLinearGap, origin, goal, delta)
+        taa = taa_of(r, name)
+        if g == 0:
+            close(taa, b, TIGHT * scale, name + " with no gap: result vs goal")
+            continue
+        want = a + delta * diff / g
+        close(taa, want, TIGHT * scale, name + ": six-vector vs origin + delta*unit(goal - origin)")
+        adv = float(np.linalg.norm(taa - a))
+        if abs(adv - delta) > TIGHT * scale:
+            raise Violation("%s advanced %.12g, requested %.12g" % (name, adv, delta))
+        check_pose_coherent(r, name + " result")
 
 
 ARC_TOWARD_TAG = "[toward-goal]"
@@ -728,14 +743,21 @@ def c_arc_gap(case, ctx):
         ctx.skip("arc gap below the library's NearZero resolution (2e-6): step direction not resolvable")
     tha, thb = ang(a[3:]), ang(b[3:])
     ctx.label("origin " + ("unrotated" if tha == 0 else "rotated"))
-    r = sut(fsr.closeArcGap, mk(a), mk(b), delta)
+    origin, goal = mk(a), mk(b)
+    if g != 0:
+        ctx.nontrivial(pair_nontrivial(a, b))
+    # stepped twice from the same origin and goal objects: both answers are the step from the origin's pose
+    for _rep in range(2):
+        _c_arc_gap_result(sut(fsr.closeArcGap, origin, goal, delta), ctx, a, b, delta, diff, g, Ta, Tb, gap_arc, threl, tha, thb)
+
+
+def _c_arc_gap_result(r, ctx, a, b, delta, diff, g, Ta, Tb, gap_arc, threl, tha, thb):
     Tr = TM_of(r, "closeArcGap")
     scale = max(1.0, float(np.abs(a[:3]).max()), float(np.abs(b[:3]).max()))
     if g == 0:
         close(Tr[:3, 3], b[:3], TIGHT * scale, "closeArcGap with no gap: position vs goal")
         close(Tr[:3, :3], Tb[:3, :3], tol(1.0, thb), "closeArcGap with no gap: rotation vs goal")
         return
-    ctx.nontrivial(pair_nontrivial(a, b))
     if not O.is_rotation(Tr[:3, :3], 1e-8) or not np.array_equal(Tr[3], [0.0, 0.0, 0.0, 1.0]):
         raise Violation("closeArcGap: result is not a rigid transform")
     step_rot = delta * float(np.linalg.norm(diff[3:])) / g      # rotation angle of the library's step
@@ -840,6 +862,8 @@ def c_chain_jacobian(case, ctx):
     angs = [abs(th[i]) * ang(S[:3, i]) for i in range(n - 1)]
     ctx.label("n=%d" % n)
     ctx.label("band" if in_band(*angs) else "no band")
+    if any(not np.any(S[:3, i]) and abs(th[i]) > 2 * PI for i in range(n - 1)):
+        ctx.label("a slide (not the last joint) displaced by more than 2 pi")
     ctx.nontrivial(n >= 2 and any(x >= 1e-6 for x in angs))
     if np.issubdtype(S.dtype, np.integer):
         ctx.label("integer-typed screw list")
@@ -978,23 +1002,38 @@ def sphere_case_at(i, tier):
 
 def c_sphere(case, ctx):
     kind, n = case["kind"], int(case["n"])
-    fsr = L()["fsr"]
     if not 1 <= n <= 2000:
         ctx.skip("point count outside 1..2000")
     ctx.label(kind)
     ctx.nontrivial(n >= 2)
+    raw = _c_sphere_once(kind, n)
+    # the caller places the sphere (scales and shifts the returned array in place, as one does with one's own array)
+    # and asks for the same number of points again: the second answer is again unit vectors
+    if isinstance(raw, np.ndarray) and raw.flags.writeable and raw.dtype.kind == "f":
+        raw *= 2.5
+        raw += np.array([1.0, -2.0, 0.5])
+        ctx.label("asked again after the first result was scaled in place")
+        _c_sphere_once(kind, n)
+
+
+def _c_sphere_once(kind, n):
+    fsr = L()["fsr"]
+    raw = None
     if kind == "fibo":
-        pts = np.asarray(sut(fsr.fiboSphere, n), dtype=float)
+        raw = sut(fsr.fiboSphere, n)
+        pts = np.asarray(raw, dtype=float)
         if pts.shape != (n, 3):
             raise Violation("fiboSphere(%d): shape %s, expected (%d, 3)" % (n, pts.shape, n))
     else:
         if kind == "unit":
-            pts = np.asarray(sut(fsr.unitSphere, n), dtype=float)
+            raw = sut(fsr.unitSphere, n)
+            pts = np.asarray(raw, dtype=float)
         else:
             res = sut(fsr.unitSphere, n, True)
             if not (isinstance(res, tuple) and len(res) == 2):
                 raise Violation("unitSphere(%d, True): expected (points, azel)" % n)
-            pts = np.asarray(res[0], dtype=float)
+            raw = res[0]
+            pts = np.asarray(raw, dtype=float)
             if len(res[1]) != len(pts):
                 raise Violation("unitSphere(%d, True): %d points but %d az/el pairs" % (n, len(pts), len(res[1])))
         r = int(round(math.sqrt(n)))
@@ -1006,6 +1045,7 @@ def c_sphere(case, ctx):
     e = np.abs(np.sqrt((pts * pts).sum(axis=1)) - 1.0)
     if e.max() > TIGHT:
         raise Violation("%s(%d): row %d has norm 1%+.3g" % (kind, n, int(e.argmax()), float(e.max())))
+    return raw
 
 
 # angle wrapping ------------------------------------------------------------------------------------
